@@ -2,7 +2,7 @@
    The extracted OCaml driver and the in-Coq replays both call only this. *)
 From Coq Require Import List ZArith NArith Bool.
 From AG Require Import Base.Val Base.Sort Str.MetaVar Str.AnB Str.Substring
-  Rewrite.Indent Rewrite.Template Tree.Tree Tree.Wf Match.MatchNode Match.Prefilter Rule.Rule Rule.Kinds Rule.Traversal Rule.Scan Rule.Eval Rule.Sem Front.JsonPrint.
+  Rewrite.Indent Rewrite.Template Tree.Tree Tree.Wf Match.MatchNode Match.Prefilter Rule.Rule Rule.Kinds Rule.Traversal Rule.Scan Rule.Eval Rule.Sem Rewrite.Splice Front.JsonPrint.
 Import ListNotations.
 Local Open Scope Z_scope.
 
@@ -230,6 +230,12 @@ Definition run_case (fid : Z) (v : val) : val :=
   (* 41: (src start end before after) -> display_context: (leading-start trailing-end lines-above) *)
   | 41 => let d := display_context (gS (gNth 0 v)) (gNat (gNth 1 v)) (gNat (gNth 2 v)) (gNat (gNth 3 v)) (gNat (gNth 4 v)) in
           VL [vNat (dc_lead d); vNat (dc_trail d); vNat (dc_offset d)]
+  (* 43: (old-text ((start end replacement) ...)) -> update_file: (0 (opt new-text) count) | (1) panic *)
+  | 43 => let ds := gList (fun d => {| ed_s := gNat (gNth 0 d); ed_e := gNat (gNth 1 d); ed_text := gS (gNth 2 d) |}) (gNth 1 v) in
+          match update_file (gS (gNth 0 v)) ds with
+          | (Done o, n) => VL [VZ 0; vOpt VS o; vNat n]
+          | (Panic, _) => VL [VZ 1]
+          end
   (* 42: (style ((doc ..) ..)) -> bytes written by the JSON printer *)
   | 42 => VS (run_printer (match gZ (gNth 0 v) with 0%Z => Pretty | 1%Z => Stream | _ => Compact end)
                           (gList (gList gS) (gNth 1 v)))
